@@ -31,3 +31,292 @@ Theorem poryswitch_no_case_fails :
     exists e, parse_pory autovars switches true parse_format consts (S f) script bs cs ts = Err e /\ els e = tline (cur ts).
 Proof. intros. eapply parse_pory_no_case_rejected; eauto. Qed.
 Print Assumptions poryswitch_no_case_fails.
+
+(* ---------- list positions (movement, moves(), mart) and the text position (PorySwitchLists.v) ---------- *)
+(* `pory_select cases sv`: the entry for the -s value, else the entry for '_'.  `list_erase`: the list parser run as an eraser -
+   it copies the tokens it consumes and replaces every poryswitch (at any nesting depth) by the erased source of its selected
+   case.  For movement statements, moves() and marts: the items contributed by a poryswitch are those of the selected case (last
+   case with that label, else '_'; no case and no '_': error at the poryswitch in normal mode, nothing in lint mode), and the
+   statement parses to the same result as its erased source, which contains no poryswitch.  Same for text (value and string
+   type), including format() in the selected case. *)
+From Pory Require Import Consume Format PorySwitchLists.
+Theorem poryswitch_list_selects :
+  forall (switches : list (text * text)) (env_errors : bool) (f : nat) (k : listkind) (multi : bool) (ts : toks) (acc : list token) 
+    (sc : text) (sv : option text) (ts1 : toks) (cases : list (text * list token)) (ts2 : toks),
+  curis (closing_of k) ts = false ->
+  curis PORYSWITCH ts = true ->
+  poryswitch_header switches env_errors ts = Ok (sc, sv, ts1) ->
+  list_cases switches env_errors f k (cur ts1) ts1 [] = Ok (cases, ts2) ->
+  list_value switches env_errors (S f) k multi ts acc =
+  (let continue := fun acc' : list token => if multi then list_value switches env_errors f k multi (adv ts2) acc' else Ok (acc', adv ts2) in
+   match pory_select cases sv with
+   | Some items => continue (acc ++ items)
+   | None => if env_errors then err_tok (cur ts) "no poryswitch case found" else continue acc
+   end).
+Proof. exact PorySwitchLists.poryswitch_list_selects. Qed.
+Print Assumptions poryswitch_list_selects.
+
+Theorem poryswitch_list_no_case_fails :
+  forall (switches : list (text * text)) (f : nat) (k : listkind) (multi : bool) (ts : toks) (acc : list token) (sc : text) 
+    (sv : option text) (ts1 : toks) (cases : list (text * list token)) (ts2 : toks),
+  curis (closing_of k) ts = false ->
+  curis PORYSWITCH ts = true ->
+  poryswitch_header switches true ts = Ok (sc, sv, ts1) ->
+  list_cases switches true f k (cur ts1) ts1 [] = Ok (cases, ts2) ->
+  assoc cases (sval sv) = None ->
+  assoc cases (t "_") = None ->
+  exists e : perr, list_value switches true (S f) k multi ts acc = Err e /\ els e = tline (cur ts) /\ ecs e = tsb (cur ts).
+Proof. exact PorySwitchLists.poryswitch_list_no_case_fails. Qed.
+Print Assumptions poryswitch_list_no_case_fails.
+
+Theorem poryswitch_list_no_case_lint :
+  forall (switches : list (text * text)) (f : nat) (k : listkind) (ts : toks) (acc : list token) (sc : text) (sv : option text) 
+    (ts1 : toks) (cases : list (text * list token)) (ts2 : toks),
+  curis (closing_of k) ts = false ->
+  curis PORYSWITCH ts = true ->
+  poryswitch_header switches false ts = Ok (sc, sv, ts1) ->
+  list_cases switches false f k (cur ts1) ts1 [] = Ok (cases, ts2) ->
+  assoc cases (sval sv) = None ->
+  assoc cases (t "_") = None -> list_value switches false (S f) k true ts acc = list_value switches false f k true (adv ts2) acc.
+Proof. exact PorySwitchLists.poryswitch_list_no_case_lint. Qed.
+Print Assumptions poryswitch_list_no_case_lint.
+
+Theorem list_cases_table :
+  forall (switches : list (text * text)) (env_errors : bool) (f : nat) (k : listkind) (start : token) (ts : toks)
+    (cases : list (text * list token)) (ts' : toks),
+  list_cases switches env_errors f k start ts [] = Ok (cases, ts') ->
+  exists l : list (text * list token), case_seq switches env_errors k ts l ts' /\ curis RBRACE ts' = true /\ cases = rev l.
+Proof. exact PorySwitchLists.list_cases_table. Qed.
+Print Assumptions list_cases_table.
+
+Theorem poryswitch_last_case_wins :
+  forall (B : Type) (l : list (text * B)) (sv : option text) (b : B),
+  pory_select (rev l) sv = Some b <->
+  (exists (x : text) (l1 l2 : list (text * B)),
+     l = l1 ++ (x, b) :: l2 /\ assoc l2 x = None /\ (x = sval sv \/ x = t "_" /\ assoc l (sval sv) = None)).
+Proof. exact PorySwitchLists.poryswitch_last_case_wins. Qed.
+Print Assumptions poryswitch_last_case_wins.
+
+Theorem poryswitch_list_erasure :
+  forall (switches : list (text * text)) (env_errors : bool) (f : nat) (k : listkind) (ts : toks) (acc items : list token) (ts' : toks),
+  list_value switches env_errors f k true ts acc = Ok (items, ts') ->
+  exists src : list token,
+    list_erase switches env_errors f k true ts [] = Ok (src, ts') /\
+    no_poryswitch src /\
+    (forall (rest : toks) (f' : nat),
+     closing_of k = RBRACE \/ closing_of k = RPAREN ->
+     curis (closing_of k) rest = true ->
+     Datatypes.length src < f' -> list_value switches env_errors f' k true (src ++ rest) acc = Ok (items, rest)).
+Proof. exact PorySwitchLists.poryswitch_list_erasure. Qed.
+Print Assumptions poryswitch_list_erasure.
+
+Theorem poryswitch_list_erasure_same_rest :
+  forall (switches : list (text * text)) (env_errors : bool) (f : nat) (k : listkind) (ts : toks) (acc items : list token) (ts' : toks),
+  closing_of k = RBRACE \/ closing_of k = RPAREN ->
+  list_value switches env_errors f k true ts acc = Ok (items, ts') ->
+  exists src : list token,
+    list_erase switches env_errors f k true ts [] = Ok (src, ts') /\
+    no_poryswitch src /\ list_value switches env_errors (S (Datatypes.length src)) k true (src ++ ts') acc = Ok (items, ts').
+Proof. exact PorySwitchLists.poryswitch_list_erasure_same_rest. Qed.
+Print Assumptions poryswitch_list_erasure_same_rest.
+
+Theorem list_items_determined_by_erased_source :
+  forall (switches : list (text * text)) (env_errors : bool) (f1 f2 : nat) (k : listkind) (ts1 ts2 : toks) (acc items1 items2 : list token)
+    (r1 r2 : toks) (src : list token),
+  closing_of k = RBRACE \/ closing_of k = RPAREN ->
+  list_value switches env_errors f1 k true ts1 acc = Ok (items1, r1) ->
+  list_value switches env_errors f2 k true ts2 acc = Ok (items2, r2) ->
+  list_erase switches env_errors f1 k true ts1 [] = Ok (src, r1) ->
+  list_erase switches env_errors f2 k true ts2 [] = Ok (src, r2) -> items1 = items2.
+Proof. exact PorySwitchLists.list_items_determined_by_erased_source. Qed.
+Print Assumptions list_items_determined_by_erased_source.
+
+Theorem list_erase_selects :
+  forall (switches : list (text * text)) (env_errors : bool) (f : nat) (k : listkind) (multi : bool) (ts : toks) (acc : list token) 
+    (sc : text) (sv : option text) (ts1 : toks) (cases : list (text * list token)) (ts2 : toks),
+  curis (closing_of k) ts = false ->
+  curis PORYSWITCH ts = true ->
+  poryswitch_header switches env_errors ts = Ok (sc, sv, ts1) ->
+  erase_cases switches env_errors f k (cur ts1) ts1 [] = Ok (cases, ts2) ->
+  list_erase switches env_errors (S f) k multi ts acc =
+  (let continue := fun acc' : list token => if multi then list_erase switches env_errors f k multi (adv ts2) acc' else Ok (acc', adv ts2) in
+   match pory_select cases sv with
+   | Some src => continue (acc ++ src)
+   | None => if env_errors then err_tok (cur ts) "no poryswitch case found" else continue acc
+   end).
+Proof. exact PorySwitchLists.list_erase_selects. Qed.
+Print Assumptions list_erase_selects.
+
+Theorem list_erase_identity_without_poryswitch :
+  forall (switches : list (text * text)) (env_errors : bool) (f : nat) (k : listkind) (multi : bool) (ts : toks) (src : list token) (ts' : toks),
+  eof_ended ts -> no_poryswitch ts -> list_erase switches env_errors f k multi ts [] = Ok (src, ts') -> ts = src ++ ts'.
+Proof. exact PorySwitchLists.list_erase_identity_without_poryswitch. Qed.
+Print Assumptions list_erase_identity_without_poryswitch.
+
+Theorem list_erase_idempotent :
+  forall (switches : list (text * text)) (env_errors : bool) (f : nat) (k : listkind) (ts : toks) (acc items : list token) (ts' : toks),
+  closing_of k = RBRACE \/ closing_of k = RPAREN ->
+  list_value switches env_errors f k true ts acc = Ok (items, ts') ->
+  exists src : list token,
+    list_erase switches env_errors f k true ts [] = Ok (src, ts') /\
+    list_erase switches env_errors (S (Datatypes.length src)) k true (src ++ ts') [] = Ok (src, ts').
+Proof. exact PorySwitchLists.list_erase_idempotent. Qed.
+Print Assumptions list_erase_idempotent.
+
+Theorem movement_statement_erasure :
+  forall (switches : list (text * text)) (env_errors : bool) (f : nat) (ts : toks) (tp : top) (ts' : toks),
+  eof_ended ts ->
+  parse_movement switches env_errors f ts = Ok (tp, ts') ->
+  exists (hd : list token) (lb : token) (body src : list token),
+    ts = hd ++ lb :: body /\
+    ttype lb = LBRACE /\
+    list_erase switches env_errors f (LMov RBRACE) true body [] = Ok (src, ts') /\
+    no_poryswitch src /\
+    (forall f' : nat, Datatypes.length src < f' -> parse_movement switches env_errors f' (hd ++ lb :: src ++ ts') = Ok (tp, ts')).
+Proof. exact PorySwitchLists.movement_statement_erasure. Qed.
+Print Assumptions movement_statement_erasure.
+
+Theorem mart_statement_erasure :
+  forall (switches : list (text * text)) (env_errors : bool) (consts : list (text * text)) (f : nat) (ts : toks) (tp : top) (ts' : toks),
+  eof_ended ts ->
+  parse_mart switches env_errors consts f ts = Ok (tp, ts') ->
+  exists (hd : list token) (lb : token) (body src : list token),
+    ts = hd ++ lb :: body /\
+    ttype lb = LBRACE /\
+    list_erase switches env_errors f LMart true body [] = Ok (src, ts') /\
+    no_poryswitch src /\
+    (forall f' : nat, Datatypes.length src < f' -> parse_mart switches env_errors consts f' (hd ++ lb :: src ++ ts') = Ok (tp, ts')).
+Proof. exact PorySwitchLists.mart_statement_erasure. Qed.
+Print Assumptions mart_statement_erasure.
+
+Theorem moves_operator_erasure :
+  forall (switches : list (text * text)) (env_errors : bool) (f : nat) (ts : toks) (mv : list token) (ts' : toks),
+  eof_ended ts ->
+  moves_operator switches env_errors f ts = Ok (mv, ts') ->
+  exists (m lp : token) (body src : list token),
+    ts = m :: lp :: body /\
+    ttype lp = LPAREN /\
+    list_erase switches env_errors f (LMov RPAREN) true body [] = Ok (src, ts') /\
+    no_poryswitch src /\
+    (forall f' : nat, Datatypes.length src < f' -> moves_operator switches env_errors f' (m :: lp :: src ++ ts') = Ok (mv, ts')).
+Proof. exact PorySwitchLists.moves_operator_erasure. Qed.
+Print Assumptions moves_operator_erasure.
+
+Theorem poryswitch_text_selects :
+  forall (switches : list (text * text)) (env_errors : bool) (parse_format : toks -> res (token * text * text * toks)) 
+    (f : nat) (ts : toks) (sc : text) (sv : option text) (ts1 : toks) (cases : list (text * (text * text))) (ts2 : toks),
+  poryswitch_header switches env_errors ts = Ok (sc, sv, ts1) ->
+  pory_text_cases parse_format f (cur ts1) ts1 [] = Ok (cases, ts2) ->
+  pory_text switches env_errors parse_format f ts =
+  match pory_select cases sv with
+  | Some (v, sty) => Ok (v, sty, ts2)
+  | None => if env_errors then err_tok (cur ts) "no poryswitch case found" else Ok ([], [], ts2)
+  end.
+Proof. exact PorySwitchLists.poryswitch_text_selects. Qed.
+Print Assumptions poryswitch_text_selects.
+
+Theorem poryswitch_text_no_case_fails :
+  forall (switches : list (text * text)) (parse_format : toks -> res (token * text * text * toks)) (f : nat) (ts : toks) 
+    (sc : text) (sv : option text) (ts1 : toks) (cases : list (text * (text * text))) (ts2 : toks),
+  poryswitch_header switches true ts = Ok (sc, sv, ts1) ->
+  pory_text_cases parse_format f (cur ts1) ts1 [] = Ok (cases, ts2) ->
+  assoc cases (sval sv) = None ->
+  assoc cases (t "_") = None ->
+  exists e : perr, pory_text switches true parse_format f ts = Err e /\ els e = tline (cur ts) /\ ecs e = tsb (cur ts).
+Proof. exact PorySwitchLists.poryswitch_text_no_case_fails. Qed.
+Print Assumptions poryswitch_text_no_case_fails.
+
+Theorem text_cases_table :
+  forall (parse_format : toks -> res (token * text * text * toks)) (f : nat) (start : token) (ts : toks) (cases : list (text * (text * text)))
+    (ts' : toks),
+  pory_text_cases parse_format f start ts [] = Ok (cases, ts') ->
+  exists l : list (text * (text * text)), text_case_seq parse_format ts l ts' /\ curis RBRACE ts' = true /\ cases = rev l.
+Proof. exact PorySwitchLists.text_cases_table. Qed.
+Print Assumptions text_cases_table.
+
+Theorem text_cases_table_complete :
+  forall (parse_format : toks -> res (token * text * text * toks)) (l : list (text * (text * text))) (start : token) (ts ts' : toks),
+  text_case_seq parse_format ts l ts' ->
+  curis RBRACE ts' = true -> pory_text_cases parse_format (S (Datatypes.length l)) start ts [] = Ok (rev l, ts').
+Proof. exact PorySwitchLists.text_cases_table_complete. Qed.
+Print Assumptions text_cases_table_complete.
+
+Theorem poryswitch_text_contributes :
+  forall (switches : list (text * text)) (env_errors : bool) (parse_format : toks -> res (token * text * text * toks)) 
+    (f : nat) (ts : toks) (v sty : text) (ts2 : toks),
+  pory_text switches env_errors parse_format f ts = Ok (v, sty, ts2) ->
+  exists (sc : text) (sv : option text) (ts1 : toks) (l : list (text * (text * text))),
+    poryswitch_header switches env_errors ts = Ok (sc, sv, ts1) /\
+    text_case_seq parse_format ts1 l ts2 /\
+    curis RBRACE ts2 = true /\ match pory_select (rev l) sv with
+                               | Some r => r = (v, sty)
+                               | None => env_errors = false /\ v = [] /\ sty = []
+                               end.
+Proof. exact PorySwitchLists.poryswitch_text_contributes. Qed.
+Print Assumptions poryswitch_text_contributes.
+
+Theorem text_statement_erasure :
+  forall (switches : list (text * text)) (env_errors : bool) (parse_format : toks -> res (token * text * text * toks)) 
+    (f : nat) (ts : toks) (td : textdef) (ts' : toks),
+  eof_ended ts ->
+  parse_text switches env_errors parse_format f ts = Ok (td, ts') ->
+  exists (hd : list token) (lb : token) (body : list token),
+    ts = hd ++ lb :: body /\
+    ttype lb = LBRACE /\
+    (curis PORYSWITCH body = true ->
+     exists (sc : text) (sv : option text) (ts1 : toks) (l : list (text * (text * text))) (ts2 : toks),
+       poryswitch_header switches env_errors body = Ok (sc, sv, ts1) /\
+       text_case_seq parse_format ts1 l ts2 /\
+       curis RBRACE ts2 = true /\
+       match pory_select (rev l) sv with
+       | Some _ =>
+           exists (x : text) (l1 l2 : list (text * (text * text))) (tsc tsn : toks),
+             l = l1 ++ (x, (xvalue td, xtype td)) :: l2 /\
+             assoc l2 x = None /\
+             (x = sval sv \/ x = t "_" /\ assoc l (sval sv) = None) /\
+             text_case_seq parse_format ts1 l1 tsc /\
+             text_case_step parse_format tsc x (xvalue td) (xtype td) tsn /\
+             (curis FORMAT (adv (adv tsc)) = false \/ format_local parse_format ->
+              exists (src : list token) (lastx : token),
+                (exists tail : list token, adv (adv tsc) = src ++ lastx :: tail) /\
+                (forall f' : nat, parse_text switches env_errors parse_format f' (hd ++ lb :: src ++ lastx :: ts') = Ok (td, ts')))
+       | None => env_errors = false /\ xvalue td = [] /\ xtype td = []
+       end).
+Proof. exact PorySwitchLists.text_statement_erasure. Qed.
+Print Assumptions text_statement_erasure.
+
+Theorem text_statement_erasure_real_format :
+  forall (switches : list (text * text)) (env_errors : bool) (fc : fontcfg) (cli_font : text) (cli_maxlen : Z) (f : nat) 
+    (ts : toks) (td : textdef) (ts' : toks),
+  let pf := parse_format fc cli_font cli_maxlen env_errors in
+  eof_ended ts ->
+  parse_text switches env_errors pf f ts = Ok (td, ts') ->
+  exists (hd : list token) (lb : token) (body : list token),
+    ts = hd ++ lb :: body /\
+    ttype lb = LBRACE /\
+    (curis PORYSWITCH body = true ->
+     exists (sc : text) (sv : option text) (ts1 : toks) (l : list (text * (text * text))) (ts2 : toks),
+       poryswitch_header switches env_errors body = Ok (sc, sv, ts1) /\
+       text_case_seq pf ts1 l ts2 /\
+       curis RBRACE ts2 = true /\
+       match pory_select (rev l) sv with
+       | Some _ =>
+           exists (x : text) (l1 l2 : list (text * (text * text))) (tsc tsn : toks),
+             l = l1 ++ (x, (xvalue td, xtype td)) :: l2 /\
+             assoc l2 x = None /\
+             (x = sval sv \/ x = t "_" /\ assoc l (sval sv) = None) /\
+             text_case_seq pf ts1 l1 tsc /\
+             text_case_step pf tsc x (xvalue td) (xtype td) tsn /\
+             (exists (src : list token) (lastx : token),
+                (exists tail : list token, adv (adv tsc) = src ++ lastx :: tail) /\
+                (forall f' : nat, parse_text switches env_errors pf f' (hd ++ lb :: src ++ lastx :: ts') = Ok (td, ts')))
+       | None => env_errors = false /\ xvalue td = [] /\ xtype td = []
+       end).
+Proof. exact PorySwitchLists.text_statement_erasure_real_format. Qed.
+Print Assumptions text_statement_erasure_real_format.
+
+Theorem real_format_local :
+  forall (fc : fontcfg) (cli_font : text) (cli_maxlen : Z) (ee : bool), format_local (parse_format fc cli_font cli_maxlen ee).
+Proof. exact PorySwitchLists.real_format_local. Qed.
+Print Assumptions real_format_local.
+
